@@ -71,8 +71,18 @@ def rfPass (toks : List String) : NetM String := fun s =>
     (.ok res, { s with nodes := s.nodes.modify s.cur (fun n => { n with rf := d' }), w := w' })
   | none => (.ok "bad-op", s)
 
+/-- `dflt <method> <required args…>`: the node-level call with its optional parameters at the documented defaults -/
+def expandNetDefaults : List String → List String
+  | ["dflt", "write", to, ty, msg] => ["write", to, ty, msg, "56"]          -- traffic_direct = 0o70
+  | ["dflt", "multicast", msg, ty] => ["multicast", msg, ty, "N"]
+  | ["dflt", "check_connection"] => ["check_connection", "3", "F"]
+  | ["dflt", "lookup_node_id"] => ["lookup_node_id", "N"]
+  | ["dflt", "lookup_address"] => ["lookup_address", "0"]                    -- `None` is falsy like 0
+  | ["dflt", "release_address"] => ["release_address", "0"]
+  | t => t
+
 def nodeCall (toks : List String) : Option (NetM String) :=
-  match toks with
+  match expandNetDefaults toks with
   | "rf" :: rest =>
     if mixinOp rest && (rf24Call {} (World.fresh 1) rest).isSome then some (rfPass rest) else none
   | ["enter"] => some (rfPass ["enter"])
